@@ -337,8 +337,15 @@ def monitor_raw(raw, obs, expect_txid=None):
         return None, None
     if 'err' in obs:
         return f'valid transaction rejected with {obs["err"]}', (t, wits)
-    if fields_of(obs) != t:
-        return 'library reads different fields than the reference decoder', (t, wits)
+    got = fields_of(obs)
+    if got != t:
+        diff = [k for k in ('version', 'ins', 'outs', 'locktime') if got[k] != t[k]]
+        extra = ''
+        if 'locktime' in diff:
+            extra = f' (locktime {got["locktime"]} instead of {t["locktime"]})'
+        want_id = sha256(sha256(ref_encode(t)))[::-1].hex()
+        return (f'library reads different {"/".join(diff)} than the reference decoder{extra}; id {obs.get("id")} '
+                f'instead of {want_id} = reversed double SHA-256 of the serialisation without witness data'), (t, wits)
     legacy = ref_encode(t)
     if obs['reser'] != legacy.hex():
         return 're-serialisation differs from the (witness-stripped) reference encoding', (t, wits)
@@ -501,14 +508,54 @@ def gen_tx(rng, size_class):
     return {'version': g32(rng), 'locktime': g32(rng), 'ins': ins, 'outs': outs}, kinds
 
 
-def gen_wits(rng, t):
+WIT_LEN = [0, 1, 33, 71, 72, 73, 252, 253, 254, 300, 519, 520, 521, 522, 600, 1000, 3600]
+WIT_LEN_BIG = [10000, 65534, 65535, 65536, 65537]
+WIT_BOUNDARY = [0, 1, 75, 76, 252, 253, 254, 255, 256, 519, 520, 521, 522, 1000, 3600, 10000, 65535, 65536, 65537]
+
+
+def gen_wits(rng, t, big_ok=True):
+    """witness stacks; item lengths across the compact-size boundaries (252/253, 65535/65536) and the
+    520/521 script-element limit up to large P2WSH witness scripts (3600 and more)"""
     wits = []
     for _ in t['ins']:
         k = rng.choice([0, 0, 1, 2, 2, 3, 5])
         if rng.random() < 0.03:
             k = rng.choice([252, 253, 254])
-        wits.append([rbytes(rng, rng.choice([0, 1, 33, 71, 72, 73, 252, 253, 254, 300])).hex() for _ in range(k)])
+            wits.append([rbytes(rng, rng.choice([0, 1, 33])).hex() for _ in range(k)])
+            continue
+        stack = []
+        for _ in range(k):
+            n = rng.choice(WIT_LEN)
+            if big_ok and rng.random() < 0.02:
+                n = rng.choice(WIT_LEN_BIG)
+            stack.append(rbytes(rng, n).hex())
+        wits.append(stack)
     return wits
+
+
+def boundary_segwit():
+    """deterministic: the shape of a P2WSH spend (<sig> <witness script of L bytes>) for every L on the boundary list,
+    with the large item last / first / alone, one and two inputs, non-zero locktimes"""
+    sig = (b'\x30' + bytes(range(1, 71)) + b'\x01').hex()
+    pub = (b'\x02' + bytes(range(100, 132))).hex()
+    outs = [[5_0000_0000, (b'\x00\x14' + b'\x11' * 20).hex()], [1234, (b'\x00\x20' + b'\x22' * 32).hex()],
+            [99, (b'\x76\xa9\x14' + b'\x33' * 20 + b'\x88\xac').hex()]]
+    for L in WIT_BOUNDARY:
+        wscript = bytes((7 * j + 3) % 251 + 1 for j in range(L)).hex()
+        for n_in, shape in ((1, 'last'), (2, 'last'), (2, 'first'), (1, 'alone'), (3, 'middle')):
+            if L > 10000 and shape not in ('last', 'alone'):
+                continue
+            ins = [[sha256(b'in-%d-%d' % (L, i)).hex(), i, '', 0xFFFFFFFE] for i in range(n_in)]
+            wits = [[sig, pub] for _ in range(n_in)]
+            if shape == 'last':
+                wits[-1] = [sig, wscript]
+            elif shape == 'first':
+                wits[0] = [wscript, sig]
+            elif shape == 'alone':
+                wits[0] = [wscript]
+            else:
+                wits[1] = [sig, wscript, pub]
+            yield {'version': 2, 'locktime': 650_000 + L, 'ins': ins, 'outs': outs}, wits
 
 
 def field_offsets(t, wits=None):
@@ -684,9 +731,12 @@ def run_segwit(run, model, t, wits, flag, kind):
         return
     raw = ref_encode(t, wits, flag)
     mraw = model.call('segwit', tx=t, flag=flag, wits=wits)
-    case = {'op': 'segwit', 'tx': t, 'wits': wits, 'flag': flag, 'kind': kind}
+    case = {'op': 'segwit', 'tx': t, 'wits': wits, 'flag': flag, 'kind': kind, 'raw': raw.hex()}
     run.case(case, nontrivial=True, sample=(len(raw) < 300))
     run.count('segwit:flag=%s' % ('1' if flag == 1 else 'other'))
+    for stack in wits:
+        for item in stack:
+            run.count('witness-item:' + wbucket(len(item) // 2))
     if not run.compare('C05.serialize_segwit', case, raw.hex(), mraw):
         return
     obs = impl_observe(raw)
@@ -1036,6 +1086,13 @@ def run_flow(run, model, env, case):
 
 
 
+def wbucket(n):
+    for lim in (0, 252, 253, 520, 521, 3600, 65535, 65536):
+        if n <= lim:
+            return '<=%d' % lim
+    return '>65536'
+
+
 def bucket(n):
     for lim in (0, 1, 2, 5, 20, 100, 252, 253, 300):
         if n <= lim:
@@ -1161,6 +1218,8 @@ def main(run):
                 small_valid.append(t)
 
     # ---- segwit encodings
+    for t, wits in boundary_segwit():
+        run_segwit(run, model, t, wits, 1, 'boundary')
     for k, t in enumerate(small_valid[:vlib.scaled(T, 300, 3000)]):
         wits = gen_wits(rng, t)
         flag = 1 if rng.random() < 0.85 else rng.choice([2, 3, 0x80, 0xff])
@@ -1186,7 +1245,7 @@ def main(run):
     # ---- exhaustive truncations of small transactions (legacy, coinbase, segwit)
     trunc_sources = [bytes.fromhex(c['raw']) for c in corpus if len(c['raw']) < 500][:vlib.scaled(T, 3, 50)]
     t0 = small_valid[0]
-    trunc_sources.append(ref_encode(t0, gen_wits(rng, t0), 1))
+    trunc_sources.append(ref_encode(t0, [[rbytes(rng, n).hex() for n in (1, 33)] for _ in t0['ins']], 1))
     for t in small_valid[1:vlib.scaled(T, 3, 40)]:
         trunc_sources.append(ref_encode(t))
     for src in trunc_sources:
@@ -1207,7 +1266,7 @@ def main(run):
     pool = []
     for t in small_valid:
         if rng.random() < 0.5:
-            w = gen_wits(rng, t)
+            w = gen_wits(rng, t, big_ok=False)
             pool.append((ref_encode(t, w, 1), field_offsets(t, w)))
         else:
             pool.append((ref_encode(t), field_offsets(t)))
